@@ -57,10 +57,9 @@
 void snoopy_message_generateFromFormat (
     char * const logMessage,
     size_t       logMessageBufSize,
-    size_t       dataSourceMsgMaxLength,
+    size_t       dataSourceMsgBufSize,
     char const * const logMessageFormat
 ) {
-    size_t dataSourceMsgBufSize;
     char * dataSourceMsg = NULL;
 
     char const * fmtPos_cur;
@@ -68,7 +67,6 @@ void snoopy_message_generateFromFormat (
     char const * fmtPos_nextFormatTagClose;
     int   retVal;
 
-    dataSourceMsgBufSize = dataSourceMsgMaxLength+1;
     dataSourceMsg = malloc(dataSourceMsgBufSize);
 
     fmtPos_cur           = logMessageFormat;
